@@ -148,7 +148,7 @@ def work(arg):
     from dashlive.mpeg.dash.reference import StreamTimingReference
     acc = core.Acc()
     nows = instants(tier)
-    refs = REFS[:3] if tier != 'quick' else REFS[:2]
+    refs = REFS[:4] if tier != 'quick' else (REFS[0], REFS[3])
     for depth, mup, ref in itertools.product(depths, mups, refs):
         sref = StreamTimingReference(media_name='x', media_duration=ref[0], num_media_segments=ref[0] // ref[2],
                                      segment_duration=ref[2], timescale=ref[1])
@@ -283,7 +283,7 @@ def run(ctx):
     ctx.merge_all(ctx.pmap(http_conformance, conf))
     ctx.acc.counts['traces'] += ctx.acc.counts['evaluations']
     ctx.extra.update(instants=len(instants(ctx.tier)), days=len(days(ctx.tier)), depths=depths, mups=mups,
-                     dropped_by_http=dropped, refs=[list(r) for r in (REFS[:3] if not ctx.quick else REFS[:2])],
+                     dropped_by_http=dropped, refs=[list(r) for r in (REFS[:4] if not ctx.quick else (REFS[0], REFS[3]))],
                      explicit_deltas_s=[d.total_seconds() for d in deltas],
                      levels_completed='complete product of the stated alphabets')
 
